@@ -229,6 +229,8 @@ UNIT = Unit(
     trusted=["derived Clone is an identical copy; String == &str compares the text",
              "`for (i, col) in v.iter().enumerate()` / `for Arm { pat, body } in arms.iter()` are rewritten to index loops (std semantics)"],
     items=[
+        Adt(file="crates/common-defs/src/lib.rs", kw="enum", name="BinaryOp", rules=["attrs"]),
+        Adt(file="crates/common-defs/src/lib.rs", kw="enum", name="UnaryOp", rules=["attrs"]),
         Adt(file=T, kw="enum", name="Ty", rules=["attrs"]),
         Adt(file=T, kw="struct", name="TastIdent", rules=["attrs"]),
         Adt(file=T, kw="enum", name="UnaryResolution", rules=["attrs"]),
